@@ -62,7 +62,7 @@ def canon(v):
         return "(" + ", ".join(canon(x) for x in v) + ")"
     if isinstance(v, (set, frozenset)):
         return "{" + ",".join(str(x) for x in sorted(v)) + "}"
-    if isinstance(v, list):
+    if isinstance(v, (list, range)):
         return "[" + ", ".join(canon(x) for x in v) + "]"
     if isinstance(v, str):
         return v
@@ -98,6 +98,17 @@ def arg_text(t, v, depth=0):
     raise TypeError(t)
 
 
+class PyList(list):
+    """list-typed inputs: a list that also answers the deque methods (the translator gives both the list meaning)"""
+    def appendleft(self, x):
+        self.insert(0, x)
+
+    def popleft(self):
+        if not self:
+            raise IndexError("pop from an empty deque")
+        return self.pop(0)
+
+
 def py_value(t, v):
     """the Python object handed to the real function"""
     if t == T.BYTES:
@@ -105,13 +116,13 @@ def py_value(t, v):
     if t == T.SET:
         return set(v)
     if t == T.LIST(T.INT):
-        return list(v)
+        return PyList(v)
     if isinstance(t, tuple) and t[0] == "opt":
         return None if v is None else py_value(t[1], v)
     if isinstance(t, tuple) and t[0] == "tuple":
         return tuple(py_value(ct, c) for ct, c in zip(t[1:], v))
     if isinstance(t, tuple) and t[0] == "list":
-        return [py_value(t[1], x) for x in v]
+        return PyList(py_value(t[1], x) for x in v)
     if isinstance(t, tuple) and t[0] == "rec":
         return rec_value(t[1], v)
     return v
@@ -128,7 +139,9 @@ def load_module(sp, src_root=None, tag=""):
     mname = name + "_mut" + tag
     spec = importlib.util.spec_from_file_location(mname, path)
     mod = importlib.util.module_from_spec(spec)
-    mod.__package__ = name.rsplit(".", 1)[0]
+    # relative imports of the mutated copy resolve against the real package: for a package file (`clf/__init__.py`)
+    # that is the package itself, for a module its parent
+    mod.__package__ = name if sp.file.endswith("__init__.py") else name.rsplit(".", 1)[0]
     sys.modules[mname] = mod
     spec.loader.exec_module(mod)
     return mod
@@ -601,7 +614,13 @@ def part1(seed, n, verbose=True):
         f = real_callable(sp, mod, path)
         ins = inputs_for(sp, rng, n)
         lines = [request_line(sp, pv, bv) for pv, bv in ins]
-        lean = model.ask_many(lines)
+        try:
+            lean = model.ask_many(lines)
+        except common.Infra as e:
+            # the driver died on this function (memory / time: e.g. `range(n)` for a huge n): every input counts as
+            # a difference, the other functions are still run
+            print("  WARNING: the Lean driver died on %s: %s" % (sp.lean, str(e)[:160]))
+            lean = ["<driver died>"] * len(lines)
         bad, excs = [], {}
         for (pv, bv), line, lo in zip(ins, lines, lean):
             po = run_real(f, pv, bv, sp)
